@@ -355,6 +355,18 @@ pub fn plan(property: &str, quick: bool) -> Plan {
     }
 }
 
+/// "Predefined users" as C20 sees them: the configurations of C03 that declare a
+/// user (password, matching and non-matching mask, next to a server password).
+pub fn c20_user_parts(quick: bool) -> Vec<Part> {
+    let mut parts = vec![];
+    for cfg in c03_configs() {
+        if ["user-mask-match", "user-mask-mismatch", "user+server-password"].contains(&cfg.label.as_str()) {
+            parts.push(Part::Bfs(Box::new(c03_scn(cfg, false)), lim(if quick { 6 } else { 8 }, 2_000_000, if quick { 8.0 } else { 300.0 })));
+        }
+    }
+    parts
+}
+
 pub fn scenarios(property: &str) -> Vec<Box<dyn Scenario>> {
     let mut v: Vec<Box<dyn Scenario>> = vec![];
     match property {
